@@ -94,9 +94,9 @@ def check(sc, r):
     where = "%s/%s" % (op, beh_kind(sc))
     handled = [h for h in r.hist if h["kind"] == "handler" and h["op"] == op]
     infos = [S.rsp_info(m, s2c) for m in rsps]
-    finals = [i for i, x in enumerate(infos) if not S.is_pending(x["status"])]
-    # 0xB001 (Repository Query response-limit warning) is the only tolerated non-final non-Pending status;
-    # the scenarios here use the Patient Root model, so any non-Pending response is final
+    # 0xB001 (Repository Query "matching reached response limit" warning) is the only tolerated non-final
+    # non-Pending status: pynetdicom's own SCU also goes on reading after it
+    finals = [i for i, x in enumerate(infos) if not S.is_pending(x["status"]) and not (op == "find" and x["status"] == 0xB001)]
     # only the handler or the *peer* ending the association excuses a missing final response; the handlers of these
     # scenarios never abort or release, so the excuse is an A-ABORT / A-RELEASE-RQ written by the requestor
     # (an abort that pynetdicom's SCP decides on by itself because of what the handler returned is not an excuse)
